@@ -8,9 +8,9 @@ for name in "$@"; do
   src=/tmp/wt/out/$name
   [ -f $src/patch.diff ] || { echo "$name: no patch"; continue; }
   cd $WT && git checkout -- .
-  d0=$(cd $src && PYTHONPATH=$WT timeout 120 /venv/bin/python demo.py >/tmp/wt/demo0.log 2>&1; echo $?)
+  d0=$(cd $src && PYTHONPATH=$WT timeout 120 /venv/bin/python demo.py >/tmp/wt/demo0_$name.log 2>&1; echo $?)
   git apply $src/patch.diff || { echo "$name: patch does not apply"; continue; }
-  d1=$(cd $src && PYTHONPATH=$WT timeout 120 /venv/bin/python demo.py >/tmp/wt/demo1.log 2>&1; echo $?)
+  d1=$(cd $src && PYTHONPATH=$WT timeout 120 /venv/bin/python demo.py >/tmp/wt/demo1_$name.log 2>&1; echo $?)
   PYTHONPATH=$WT /venv/bin/python -m pytest -q -p no:cacheprovider --timeout=900 --continue-on-collection-errors -rA > /tmp/wt/test_$name.log 2>&1
   passed=$(grep -c "^PASSED" /tmp/wt/test_$name.log); 
   grep "^PASSED" /tmp/wt/test_$name.log | sed 's/ .*//;s/^PASSED //' | sort > /tmp/wt/passed_$name.txt
@@ -36,7 +36,7 @@ PY
 import json
 m=json.load(open('$src/meta.json'))
 m['confirmed_by_me']={'scratch_worktree':'$WT (removed afterwards)','demo_exit_unchanged':$d0,'demo_exit_changed':$d1,
-  'tests':'all 60 baseline tests still pass with the change ($summary)'.strip(),'demo_output_changed':open('/tmp/wt/demo1.log').read()[-600:]}
+  'tests':'all 60 baseline tests still pass with the change ($summary)'.strip(),'demo_output_changed':open('/tmp/wt/demo1_$name.log').read()[-600:]}
 json.dump(m,open('/verif/seeded/$name/meta.json','w'),indent=1)
 PY
     echo "  -> stored /verif/seeded/$name"
